@@ -48,15 +48,53 @@ enum { E_OK = 0, E_EMPTY = 1, E_INCOMPLETE = 2, E_INVALID = 3, E_NOMEM = 4, E_TO
 /* ================================================================================================================== */
 /* PART 1: the real Filter                                                                                            */
 /* ================================================================================================================== */
-#ifdef U_FREAL
+#if defined(U_FREAL) || defined(U_FWALK)
 /* VariantType tags (Variant/VariantContent.hpp) */
 enum { T_NULL = 0, T_RAW = 3, T_LINKED = 4, T_OWNED = 5, T_BOOL = 6, T_UINT32 = 0x0A, T_INT32 = 0x0C, T_FLOAT = 0x0E,
        T_UINT64 = 0x1A, T_INT64 = 0x1C, T_DOUBLE = 0x1E, T_OBJECT = 0x20, T_ARRAY = 0x40 };
 enum { K_NULL, K_FALSE, K_TRUE, K_NUMBER, K_STRING, K_ARRAY, K_OBJECT };
+#ifdef U_FREAL
+static union VariantExtension g_ext[4];    /* extension slots (64-bit payloads) */
+#define EXT_OF(id) (&g_ext[(id) & 3])
+#else
+static union ResourceManager__SlotData g_slots[8];   /* the one pool of the hand-built filter document */
+#define EXT_OF(id) (&g_slots[(id) & 7].extension)
+#endif
+/* ---- oracle, from the property text: kinds of filter entries and "true-ish" ---- */
+static int spec_kind(const struct VariantData *v) {
+  if (!v) return K_NULL;                              /* an unbound reference / a missing member is null */
+  switch (v->type_) {
+    case T_NULL: return K_NULL;
+    case T_BOOL: return v->content_.asBoolean ? K_TRUE : K_FALSE;
+    case T_ARRAY: return K_ARRAY;
+    case T_OBJECT: return K_OBJECT;
+    case T_RAW: case T_LINKED: case T_OWNED: return K_STRING;
+    default: return K_NUMBER;
+  }
+}
+/* true-ish: everything except null, false and the number zero */
+static _Bool spec_truthy(const struct VariantData *v) {
+  switch (spec_kind(v)) {
+    case K_NULL: case K_FALSE: return 0;
+    case K_NUMBER:
+      if (v->type_ == T_UINT32) return v->content_.asUint32 != 0;
+      if (v->type_ == T_INT32) return v->content_.asInt32 != 0;
+      if (v->type_ == T_FLOAT) return v->content_.asFloat != 0;
+      if (v->type_ == T_UINT64) return EXT_OF(v->content_.asSlotId)->asUint64 != 0;
+      if (v->type_ == T_INT64) return EXT_OF(v->content_.asSlotId)->asInt64 != 0;
+      return EXT_OF(v->content_.asSlotId)->asDouble != 0;
+    default: return 1;
+  }
+}
+#define SAME_FILTER(a, b) ((a).variant_.data_ == (b).variant_.data_ && (a).variant_.resources_ == (b).variant_.resources_)
+#define NULL_VALUED(p) ((p) == 0 || (p)->type_ == T_NULL)
+
+#endif
+
+#ifdef U_FREAL
 static struct ResourceManager g_rm;
 static struct VariantData g_node;          /* the filter node under test */
 static struct VariantData g_child[3];      /* nodes the collection lookups may hand out */
-static union VariantExtension g_ext[4];    /* extension slots (64-bit payloads) */
 static char g_text[4];                     /* a linked string */
 static unsigned long g_strnode_room[(sizeof(struct StringNode) + 8 + 7) / 8];
 static struct VariantData *g_elem_ret, *g_key_ret, *g_star_ret;
@@ -117,35 +155,6 @@ static void freal_init(void) {
   g_key[0] = in_char(); g_key[1] = in_char(); g_key[2] = 0;
 }
 static Filter mk_filter(struct VariantData *node) { Filter f; memset(&f, 0, sizeof f); f.variant_.data_ = node; f.variant_.resources_ = &g_rm; return f; }
-
-/* ---- oracle, from the property text: kinds of filter entries and "true-ish" ---- */
-static int spec_kind(const struct VariantData *v) {
-  if (!v) return K_NULL;                              /* an unbound reference / a missing member is null */
-  switch (v->type_) {
-    case T_NULL: return K_NULL;
-    case T_BOOL: return v->content_.asBoolean ? K_TRUE : K_FALSE;
-    case T_ARRAY: return K_ARRAY;
-    case T_OBJECT: return K_OBJECT;
-    case T_RAW: case T_LINKED: case T_OWNED: return K_STRING;
-    default: return K_NUMBER;
-  }
-}
-/* true-ish: everything except null, false and the number zero */
-static _Bool spec_truthy(const struct VariantData *v) {
-  switch (spec_kind(v)) {
-    case K_NULL: case K_FALSE: return 0;
-    case K_NUMBER:
-      if (v->type_ == T_UINT32) return v->content_.asUint32 != 0;
-      if (v->type_ == T_INT32) return v->content_.asInt32 != 0;
-      if (v->type_ == T_FLOAT) return v->content_.asFloat != 0;
-      if (v->type_ == T_UINT64) return g_ext[v->content_.asSlotId & 3].asUint64 != 0;
-      if (v->type_ == T_INT64) return g_ext[v->content_.asSlotId & 3].asInt64 != 0;
-      return g_ext[v->content_.asSlotId & 3].asDouble != 0;
-    default: return 1;
-  }
-}
-#define SAME_FILTER(a, b) ((a).variant_.data_ == (b).variant_.data_ && (a).variant_.resources_ == (b).variant_.resources_)
-#define NULL_VALUED(p) ((p) == 0 || (p)->type_ == T_NULL)
 
 /* (F1) (F2) (F7): the four answers on every node */
 void h_filter_answers(void) {
@@ -286,12 +295,129 @@ void h_filter_true_identity(void) {
 #endif /* U_FREAL */
 
 /* ================================================================================================================== */
+/* unit filter_walk (class B, bounded cross-check of the stub model used above): NOTHING is stubbed - the real Filter  */
+/* on a hand-built filter document in a real slot pool (object of <= 2 members / array of <= 2 elements / scalar;     */
+/* keys of <= 2 characters), walked by the real ObjectData::findKey, ArrayData::at, stringEquals, getVariant.           */
+/* ================================================================================================================== */
+#ifdef U_FWALK
+static struct ResourceManager g_rm;
+static char g_k1[3], g_k2[3], g_key[3], g_star[2];
+static unsigned long g_k2node[(sizeof(struct StringNode) + 8 + 7) / 8];
+static unsigned g_members;     /* members / elements in the root */
+#define SLOT(i) (&g_slots[i].variant)
+static _Bool eq3(const char *a, const char *b) { return a[0] == b[0] && (a[0] == 0 || (a[1] == b[1] && (a[1] == 0 || a[2] == b[2]))); }
+static void mk_value(struct VariantData *v, unsigned ext_slot) {
+  uint8_t k = in_u8() % 10;
+  uint32_t bits = in_u32();
+  memset(&v->content_, 0, sizeof v->content_);
+  switch (k) {
+    case 0: v->type_ = T_NULL; break;
+    case 1: v->type_ = T_BOOL; v->content_.asBoolean = (bits & 1) != 0; break;
+    case 2: v->type_ = T_UINT32; v->content_.asUint32 = bits; break;
+    case 3: v->type_ = T_INT32; v->content_.asUint32 = bits; break;
+    case 4: v->type_ = T_FLOAT; v->content_.asUint32 = bits; break;
+    case 5: v->type_ = T_UINT64; v->content_.asSlotId = ext_slot; g_slots[ext_slot].extension.asUint64 = in_u64(); break;
+    case 6: v->type_ = T_DOUBLE; v->content_.asSlotId = ext_slot; g_slots[ext_slot].extension.asUint64 = in_u64(); break;
+    case 7: v->type_ = T_ARRAY; v->content_.asCollection.head_ = NULL_SLOT; v->content_.asCollection.tail_ = NULL_SLOT; break;
+    case 8: v->type_ = T_OBJECT; v->content_.asCollection.head_ = NULL_SLOT; v->content_.asCollection.tail_ = NULL_SLOT; break;
+    default: v->type_ = T_LINKED; v->content_.asLinkedString = g_k1; break;
+  }
+}
+static void fwalk_init(void) {
+  memset(g_slots, 0, sizeof g_slots);
+  memset(&g_rm, 0, sizeof g_rm);
+  g_rm.variantPools_.pools_ = g_rm.variantPools_.preallocatedPools_;
+  g_rm.variantPools_.preallocatedPools_[0].slots_ = g_slots;
+  g_rm.variantPools_.preallocatedPools_[0].capacity_ = 8; g_rm.variantPools_.preallocatedPools_[0].usage_ = 8;
+  g_rm.variantPools_.count_ = 1; g_rm.variantPools_.capacity_ = 4; g_rm.variantPools_.freeList_ = NULL_SLOT;
+  g_k1[0] = in_char(); g_k1[1] = in_char(); g_k1[2] = 0;
+  g_k2[0] = in_char(); g_k2[1] = in_char(); g_k2[2] = 0;
+  g_key[0] = in_char(); g_key[1] = in_char(); g_key[2] = 0;
+  g_star[0] = '*'; g_star[1] = 0;
+  memset(g_k2node, 0, sizeof g_k2node);
+  struct StringNode *n2 = (struct StringNode *)g_k2node;
+  n2->length = g_k2[0] == 0 ? 0 : g_k2[1] == 0 ? 1 : 2; n2->references = 1;
+  n2->data[0] = g_k2[0]; n2->data[1] = g_k2[1]; n2->data[2] = 0;
+  uint8_t shape = in_u8() % 3;          /* 0 object, 1 array, 2 scalar */
+  g_members = in_u8() % 3;
+  SLOT(1)->type_ = T_LINKED; SLOT(1)->content_.asLinkedString = g_k1; SLOT(1)->next_ = 2;
+  mk_value(SLOT(2), 6);
+  SLOT(3)->type_ = T_OWNED; SLOT(3)->content_.asOwnedString = g_k2node; SLOT(3)->next_ = 4;
+  mk_value(SLOT(4), 7); SLOT(4)->next_ = NULL_SLOT;
+  SLOT(0)->next_ = NULL_SLOT;
+  if (shape == 0) {
+    SLOT(0)->type_ = T_OBJECT;
+    SLOT(0)->content_.asCollection.head_ = g_members ? 1 : NULL_SLOT; SLOT(0)->content_.asCollection.tail_ = g_members == 2 ? 4 : g_members ? 2 : NULL_SLOT;
+    SLOT(2)->next_ = g_members == 2 ? 3 : NULL_SLOT;
+  } else if (shape == 1) {
+    SLOT(0)->type_ = T_ARRAY;
+    SLOT(0)->content_.asCollection.head_ = g_members ? 2 : NULL_SLOT; SLOT(0)->content_.asCollection.tail_ = g_members == 2 ? 4 : g_members ? 2 : NULL_SLOT;
+    SLOT(2)->next_ = g_members == 2 ? 4 : NULL_SLOT;
+  } else {
+    mk_value(SLOT(0), 5);
+    __CPROVER_assume(SLOT(0)->type_ != T_ARRAY && SLOT(0)->type_ != T_OBJECT);
+  }
+}
+/* the document as the property reads it: first member with an equal key; i-th element */
+static struct VariantData *spec_member(const char *key) {
+  if (SLOT(0)->type_ != T_OBJECT) return 0;
+  if (g_members >= 1 && eq3(g_k1, key)) return SLOT(2);
+  if (g_members >= 2 && eq3(g_k2, key)) return SLOT(4);
+  return 0;
+}
+static struct VariantData *spec_element(unsigned long i) {
+  if (SLOT(0)->type_ != T_ARRAY) return 0;
+  if (g_members >= 1 && i == 0) return SLOT(2);
+  if (g_members >= 2 && i == 1) return SLOT(4);
+  return 0;
+}
+void h_fwalk_key(void) {
+  fwalk_init();
+  Filter f; f.variant_.data_ = SLOT(0); f.variant_.resources_ = &g_rm;
+  _Bool av = DeserializationOption__Filter__allowValue(&f), ao = DeserializationOption__Filter__allowObject(&f);
+  char *key = g_key;
+  Filter r = DeserializationOption__Filter__op_index_char_p(&f, &key);
+  struct VariantData *m = spec_member(g_key), *star = spec_member(g_star);
+  struct VariantData *expect = av ? SLOT(0) : (NULL_VALUED(m) ? star : m);
+  COVER(av); COVER(m != 0 && m == SLOT(4) && !NULL_VALUED(m)); COVER(m == 0 && star == SLOT(4)); COVER(m != 0 && NULL_VALUED(m) && star != 0 && !NULL_VALUED(star)); COVER(m == 0 && star == 0 && g_members == 2);
+  COVER(spec_kind(SLOT(0)) == K_ARRAY && g_members == 2); COVER(g_key[0] == 0 && m != 0); COVER(m == SLOT(2) && g_members == 2 && eq3(g_k1, g_k2));
+#ifdef CANARY_FWALK_KEY
+  CHECK(r.variant_.data_ == expect && !(m == SLOT(4) && g_key[0] == 'b'), "C11/F4 on a real document: f[key] = member key if non-null, else member \"*\" (true: f itself)");
+#else
+  CHECK(r.variant_.data_ == expect, "C11/F4 on a real document: f[key] = member key if non-null, else member \"*\" (true: f itself)");
+#endif
+  _Bool ra = DeserializationOption__Filter__allow(&r);
+  CHECK(ra == spec_truthy(expect), "C11/F7 on a real document: kept iff the entry is true-ish");
+  CHECK(ao || !ra, "C03/F6 on a real document: !allowObject => !f[key].allow()");
+}
+void h_fwalk_int(void) {
+  fwalk_init();
+  Filter f; f.variant_.data_ = SLOT(0); f.variant_.resources_ = &g_rm;
+  _Bool av = DeserializationOption__Filter__allowValue(&f), aa = DeserializationOption__Filter__allowArray(&f);
+  unsigned int idx = in_u8() % 4;
+  Filter r = DeserializationOption__Filter__op_index_uint(&f, &idx);
+  struct VariantData *expect = av ? SLOT(0) : spec_element(idx);
+  struct VariantData *star = spec_member(g_star);
+  COVER(av); COVER(spec_kind(SLOT(0)) == K_ARRAY && idx == 1 && expect != 0); COVER(spec_kind(SLOT(0)) == K_ARRAY && idx == 2 && g_members == 2);
+  COVER(star != 0 && spec_kind(star) == K_TRUE && idx == 0);      /* the filter {"*":true} asked for its element 0 (the 91 01 crash before the fix) */
+#ifdef CANARY_FWALK_INT
+  CHECK(r.variant_.data_ == expect && !(idx == 1 && expect == SLOT(4)), "C11/F5 on a real document: f[index] = element index, never the \"*\" member (true: f itself)");
+#else
+  CHECK(r.variant_.data_ == expect, "C11/F5 on a real document: f[index] = element index, never the \"*\" member (true: f itself)");
+#endif
+  _Bool ra = DeserializationOption__Filter__allow(&r);
+  CHECK(ra == spec_truthy(expect), "C11/F7 on a real document: kept iff the entry is true-ish");
+  CHECK(aa || !ra, "C03/F5 on a real document: !allowArray => !f[index].allow()");
+}
+#endif /* U_FWALK */
+
+/* ================================================================================================================== */
 /* PART 2: the Filter by contract: abstract tokens                                                                     */
 /* A filter value is a token (carried in variant_.data_); its four answers are arbitrary but fixed, and constrained by */
 /* exactly the clauses proved of the real class in PART 1 (F1 F2 always; F3 F5 F6 where a sub-filter is selected).      */
 /* A -DDROP_Fx build leaves one clause out: the obligations named *_needs_Fx require that build to FAIL.                */
 /* ================================================================================================================== */
-#if defined(U_MPCOLL) || defined(U_MPVAR)
+#if defined(U_MPCOLL) || defined(U_MPVAR) || defined(U_MPTOP) || defined(U_JSVAR) || defined(U_JSTOP)
 #ifndef U_MPCOLL
 struct tok_answers { _Bool allow, arr, obj, val; };
 static struct tok_answers g_tok[4];
@@ -307,7 +433,9 @@ _Bool DeserializationOption__Filter__allowValue(Filter *self) { return g_tok[tok
 static void pick_answer(unsigned t) {
   {
     g_tok[t].allow = in_bool(); g_tok[t].arr = in_bool(); g_tok[t].obj = in_bool(); g_tok[t].val = in_bool();
+#ifndef DROP_F1
     __CPROVER_assume(!g_tok[t].val || (g_tok[t].allow && g_tok[t].arr && g_tok[t].obj));      /* F1 */
+#endif
 #ifndef DROP_F2
     __CPROVER_assume(!g_tok[t].arr || g_tok[t].allow);                                         /* F2 */
     __CPROVER_assume(!g_tok[t].obj || g_tok[t].allow);                                         /* F2 */
@@ -453,7 +581,7 @@ static void coll_post(unsigned err, int isMap) {
         "C11: Ok only after all n entries were handed to a child, kept or not (the input is consumed exactly as without a filter)");
   CHECK(g_entries <= g_n0, "never more than n entries");
   CHECK(g_adds <= g_child_calls, "C06: at most one slot per entry: never more stores than the unfiltered run");
-  CHECK(g_saves == g_adds || (g_saves == g_adds + 1 && err == E_NOMEM), "C06: one key is saved per member added");
+  if (isMap) CHECK(g_saves == g_adds || (g_saves == g_adds + 1 && err == E_NOMEM), "C06: one key is saved per member added");
 }
 void h_mpf_array(void) {
   unsigned err = run_coll(0);
@@ -490,3 +618,413 @@ void h_mpf_object(void) {
   }
 }
 #endif /* U_MPCOLL */
+
+/* ================================================================================================================== */
+/* unit mpf_variant: parseVariant<Filter> (and <AllowAllFilter> for the identity lemma)                                */
+/* real: parseVariant, readBytes, setBoolean; by contract: the payload routines (recorders), skipBytes, readArray/readObject */
+/* RELATIONAL: the routine is run twice on the SAME input script, first with the filter `true` (all answers true), then */
+/* with an arbitrary filter; the second run must be the projection of the first.                                        */
+/* ================================================================================================================== */
+#ifdef U_MPVAR
+#define IN_CAP 6
+static unsigned char g_in[IN_CAP];
+static size_t g_in_len, g_pos;
+unsigned long StubReader__readBytes(struct StubReader *self, char *buf, unsigned long n) {
+  (void)self;
+  CHECK(n <= 4, "C03: the header buffer receives at most 1 + 4 bytes");
+  unsigned long avail = g_in_len - g_pos;
+  unsigned long k = n <= avail ? n : avail;
+  if (0 < k) buf[0] = (char)g_in[g_pos];
+  if (1 < k) buf[1] = (char)g_in[g_pos + 1];
+  if (2 < k) buf[2] = (char)g_in[g_pos + 2];
+  if (3 < k) buf[3] = (char)g_in[g_pos + 3];
+  g_pos += k;
+  return k;
+}
+enum { R_NONE, R_ARR, R_MAP, R_STR, R_RAW, R_INT, R_F32, R_F64, R_SKIP };
+struct rec {
+  int kind; unsigned calls;
+  struct VariantData *variant; unsigned long n; size_t pos; unsigned tok; unsigned char nl;
+  unsigned char width; _Bool isSigned; unsigned char hsize; unsigned char hdr[5];
+  unsigned setint_calls; signed char setint_val;
+};
+static struct rec g_rec;
+static unsigned g_callee_ret;
+static struct VariantData *g_variant_in;   /* the variant pointer the routine under test received */
+static unsigned g_run_tok;                 /* the filter token of the current run */
+static struct ResourceManager g_rm;
+static unsigned note_call(int kind, struct VariantData *variant, unsigned long n) {
+  g_rec.kind = kind; g_rec.calls++; g_rec.variant = variant; g_rec.n = n; g_rec.pos = g_pos;
+  return g_callee_ret;
+}
+static unsigned store_call(int kind, struct VariantData *variant, unsigned long n) {
+  CHECK(variant != 0, "C03: variant is dereferenced only when allowValue was true (never null there)");
+  CHECK(variant == g_variant_in, "the value is stored into the variant the caller gave");
+  CHECK(g_tok[g_run_tok].val, "C11/C06: a value is read into memory only if the filter admits values; otherwise it is skipped");
+  __CPROVER_assume(g_callee_ret != E_TOODEEP && g_callee_ret != E_EMPTY);   /* payload readers: Ok / IncompleteInput / NoMemory / InvalidInput */
+  return note_call(kind, variant, n);
+}
+unsigned int MsgPackDeserializer_StubReader__readInteger(MD *self, struct VariantData *variant, unsigned char width, _Bool isSigned) {
+  (void)self; g_rec.width = width; g_rec.isSigned = isSigned; return store_call(R_INT, variant, width);
+}
+unsigned int MsgPackDeserializer_StubReader__readFloat_float(MD *self, struct VariantData *variant) { (void)self; return store_call(R_F32, variant, 4); }
+unsigned int MsgPackDeserializer_StubReader__readDouble_double(MD *self, struct VariantData *variant) { (void)self; return store_call(R_F64, variant, 8); }
+unsigned int MsgPackDeserializer_StubReader__readString__VariantData_p_ulong(MD *self, struct VariantData *variant, unsigned long n) { (void)self; return store_call(R_STR, variant, n); }
+unsigned int MsgPackDeserializer_StubReader__readRawString(MD *self, struct VariantData *variant, void *header, unsigned char headerSize, unsigned long n) {
+  (void)self;
+  const unsigned char *h = (const unsigned char *)header;
+  CHECK(headerSize >= 1 && headerSize <= 5, "C03: the header is 1..5 bytes");
+  g_rec.hsize = headerSize;
+  if (headerSize >= 1) g_rec.hdr[0] = h[0];
+  if (headerSize >= 2) g_rec.hdr[1] = h[1];
+  if (headerSize >= 3) g_rec.hdr[2] = h[2];
+  if (headerSize >= 4) g_rec.hdr[3] = h[3];
+  if (headerSize >= 5) g_rec.hdr[4] = h[4];
+  return store_call(R_RAW, variant, n);
+}
+_Bool VariantData__setInteger_signedchar(struct VariantData *self, signed char value, struct ResourceManager *resources) {
+  CHECK(self != 0, "C03: variant is dereferenced (setInteger) only when allowValue was true");
+  CHECK(self == g_variant_in && resources == &g_rm && g_tok[g_run_tok].val, "C11/C06: a fixint is stored only if the filter admits values");
+  g_rec.setint_calls++; g_rec.setint_val = value;
+  self->type_ = 0x0C; self->content_.asInt32 = value;
+  return 1;
+}
+/* skipBytes [contract proved: mpf_skip]: consumes exactly n bytes or reports IncompleteInput; stores nothing */
+unsigned int MsgPackDeserializer_StubReader__skipBytes(MD *self, unsigned long n) {
+  (void)self;
+  CHECK(!g_tok[g_run_tok].val, "C11: a value is skipped only when the filter does not admit it");
+  __CPROVER_assume(g_callee_ret == E_OK || g_callee_ret == E_INCOMPLETE);
+  return note_call(R_SKIP, 0, n);
+}
+static unsigned container_call(int kind, struct VariantData *variant, unsigned long n, unsigned t, unsigned char nl) {
+  CHECK(variant == g_variant_in, "the container routine receives the caller's variant unchanged (null if the entry was discarded)");
+  CHECK(!g_tok[g_run_tok].allow || variant != 0, "readArray/readObject precondition: allow() => variant != 0");
+  CHECK(!(kind == R_ARR ? g_tok[g_run_tok].arr : g_tok[g_run_tok].obj) || variant != 0, "C03: readArray/readObject get a non-null variant whenever the filter admits that kind (F2)");
+  g_rec.tok = t; g_rec.nl = nl;
+  return note_call(kind, variant, n);
+}
+unsigned int MsgPackDeserializer_StubReader__readArray_DeserializationOption__Filter(MD *self, struct VariantData *variant, unsigned long n, Filter filter, NL nl) {
+  (void)self; return container_call(R_ARR, variant, n, tok(&filter), nl.value_);
+}
+unsigned int MsgPackDeserializer_StubReader__readObject_DeserializationOption__Filter(MD *self, struct VariantData *variant, unsigned long n, Filter filter, NL nl) {
+  (void)self; return container_call(R_MAP, variant, n, tok(&filter), nl.value_);
+}
+unsigned int MsgPackDeserializer_StubReader__readArray_AllowAllFilter(MD *self, struct VariantData *variant, unsigned long n, struct AllowAllFilter filter, NL nl) {
+  (void)self; (void)filter; return container_call(R_ARR, variant, n, g_run_tok, nl.value_);
+}
+unsigned int MsgPackDeserializer_StubReader__readObject_AllowAllFilter(MD *self, struct VariantData *variant, unsigned long n, struct AllowAllFilter filter, NL nl) {
+  (void)self; (void)filter; return container_call(R_MAP, variant, n, g_run_tok, nl.value_);
+}
+
+struct outcome { unsigned err; struct rec rec; size_t pos; struct VariantData v; _Bool found; };
+static void mpvar_init(void) {
+  uint64_t a = in_u64();
+  g_in[0] = (unsigned char)(a & 0xFF); g_in[1] = (unsigned char)((a >> 8) & 0xFF); g_in[2] = (unsigned char)((a >> 16) & 0xFF);
+  g_in[3] = (unsigned char)((a >> 24) & 0xFF); g_in[4] = (unsigned char)((a >> 32) & 0xFF); g_in[5] = (unsigned char)((a >> 40) & 0xFF);
+  g_in_len = in_u8();
+  __CPROVER_assume(g_in_len <= IN_CAP);
+  g_pos = 0;
+  g_callee_ret = in_u8();
+  __CPROVER_assume(g_callee_ret <= E_TOODEEP);
+  memset(&g_rm, 0, sizeof g_rm);
+  pick_answers();
+  g_tok[0].allow = g_tok[0].arr = g_tok[0].obj = g_tok[0].val = 1;      /* token 0: the filter `true` (PART 1, F8) */
+}
+/* one run: which = 0 parseVariant<AllowAllFilter>, else parseVariant<Filter> with token t; passNull: hand over a null variant */
+static struct outcome run_variant(int allowAll, unsigned t, _Bool passNull, unsigned char limit) {
+  static MD d;
+  struct outcome o;
+  memset(&d, 0, sizeof d);
+  d.resources_ = &g_rm;
+  memset(&o, 0, sizeof o);
+  memset(&g_rec, 0, sizeof g_rec);
+  g_pos = 0; g_run_tok = t;
+  g_variant_in = passNull ? (struct VariantData *)0 : &o.v;
+  NL nl; nl.value_ = limit;
+  if (allowAll) {
+    struct AllowAllFilter all; memset(&all, 0, sizeof all);
+    o.err = MsgPackDeserializer_StubReader__parseVariant_AllowAllFilter(&d, g_variant_in, all, nl);
+  } else {
+    o.err = MsgPackDeserializer_StubReader__parseVariant_DeserializationOption__Filter(&d, g_variant_in, mk_tok(t), nl);
+  }
+  o.rec = g_rec; o.pos = g_pos; o.found = d.foundSomething_;
+  return o;
+}
+#define SAME_V(a, b) ((a).type_ == (b).type_ && (a).next_ == (b).next_ && (a).content_.asCollection.head_ == (b).content_.asCollection.head_ && \
+                      (a).content_.asCollection.tail_ == (b).content_.asCollection.tail_)
+#define SAME_HDR(a, b) ((a).hsize == (b).hsize && (a).hdr[0] == (b).hdr[0] && ((a).hsize < 2 || (a).hdr[1] == (b).hdr[1]) && ((a).hsize < 3 || (a).hdr[2] == (b).hdr[2]) && \
+                        ((a).hsize < 4 || (a).hdr[3] == (b).hdr[3]) && ((a).hsize < 5 || (a).hdr[4] == (b).hdr[4]))
+
+/* C11 projection, C03 null discipline, C15 limit hand-over, C06 subset of stores */
+void h_mpf_variant(void) {
+  mpvar_init();
+  unsigned char limit = in_u8();
+  struct outcome A = run_variant(0, 0, 0, limit);                       /* unfiltered: the filter `true` */
+  /* precondition of the filtered run (established by readArray/readObject/parse): allow() => variant != 0 */
+  _Bool passNull = !g_tok[1].allow && in_bool();
+  struct outcome B = run_variant(0, 1, passNull, limit);
+  const struct tok_answers f = g_tok[1];
+  COVER(A.rec.kind == R_INT && !f.val); COVER(A.rec.kind == R_INT && f.val && A.rec.width == 8 && A.rec.isSigned); COVER(A.rec.kind == R_F32 && !f.val); COVER(A.rec.kind == R_F64 && !f.val);
+  COVER(A.rec.kind == R_STR && !f.val && A.rec.n == 31); COVER(A.rec.kind == R_STR && !f.val && A.rec.n > 0xFFFF); COVER(A.rec.kind == R_RAW && !f.val && A.rec.hsize == 5);
+  COVER(A.rec.kind == R_RAW && f.val && A.rec.hsize == 1); COVER(A.rec.kind == R_ARR && passNull); COVER(A.rec.kind == R_MAP && !f.obj && f.allow); COVER(A.rec.kind == R_ARR && A.rec.n > 0xFFFF);
+  COVER(A.rec.kind == R_NONE && A.err == E_OK && A.v.type_ == 0x06 && !f.val); COVER(A.rec.setint_calls == 1 && !f.val && passNull); COVER(A.err == E_INVALID);
+  COVER(A.err == E_INCOMPLETE && A.rec.calls == 0 && g_in_len == 3); COVER(A.err == E_TOODEEP); COVER(g_in_len == 0); COVER(A.rec.kind == R_NONE && A.err == E_OK && A.v.type_ == 0 && A.rec.setint_calls == 0);
+  CHECK(A.err <= E_TOODEEP && B.err <= E_TOODEEP, "C03: one of the six documented codes");
+  CHECK(A.rec.calls <= 1 && B.rec.calls <= 1, "at most one payload routine per value");
+  CHECK(B.pos == A.pos && B.found == A.found, "C11: the filtered run consumes exactly the header bytes the unfiltered run consumes");
+  CHECK(B.rec.pos == A.rec.pos, "C11: ... and hands over to the payload routine at the same input position");
+  switch (A.rec.kind) {
+    case R_NONE:   /* nil, bool, fixint, reserved code, truncated header: decided in place */
+      CHECK(B.rec.calls == 0 && B.err == A.err, "C11: values decided in place give the same result under any filter");
+      if (f.val) CHECK(SAME_V(B.v, A.v) && B.rec.setint_calls == A.rec.setint_calls && B.rec.setint_val == A.rec.setint_val, "C11: an admitted scalar is stored as without a filter");
+      else CHECK(B.v.type_ == 0 && B.rec.setint_calls == 0, "C11/C06: a scalar the filter does not admit stores nothing: the value stays null");
+      break;
+    case R_INT: case R_F32: case R_F64: case R_STR: case R_RAW:
+      if (f.val) {
+        CHECK(B.rec.kind == A.rec.kind && B.rec.n == A.rec.n && B.rec.width == A.rec.width && B.rec.isSigned == A.rec.isSigned && B.rec.variant == g_variant_in,
+              "C11: an admitted value is read by the same routine with the same size");
+        CHECK(A.rec.kind != R_RAW || SAME_HDR(A.rec, B.rec), "C11: bin/ext: same header bytes");
+      } else {
+#ifdef CANARY_MPF_VARIANT
+        CHECK(B.rec.kind == R_SKIP && B.rec.n == A.rec.n + (A.rec.kind == R_RAW && A.rec.n == 2), "C11: a value the filter does not admit is skipped: exactly the bytes the unfiltered run would read are consumed");
+#else
+        CHECK(B.rec.kind == R_SKIP && B.rec.n == A.rec.n, "C11: a value the filter does not admit is skipped: exactly the bytes the unfiltered run would read are consumed");
+#endif
+        CHECK(B.v.type_ == 0 && B.rec.setint_calls == 0, "C11/C06: ... and nothing is stored (the kept value becomes null)");
+      }
+      CHECK(B.err == g_callee_ret && A.err == g_callee_ret, "the payload routine's result is the result");
+      break;
+    default:       /* R_ARR, R_MAP: containers are always descended into, kept or not (their content must be consumed) */
+      CHECK(B.rec.kind == A.rec.kind && B.rec.n == A.rec.n, "C11/C15: an array / map goes to readArray / readObject with the same count, whatever the filter answers");
+      CHECK(B.rec.tok == 1 && A.rec.tok == 0, "C11: the container routine receives this value's filter");
+      CHECK(B.rec.nl == limit && A.rec.nl == limit, "C15: parseVariant passes the nesting limit unchanged to readArray / readObject");
+      CHECK(B.err == g_callee_ret && A.err == g_callee_ret, "the container routine's result is the result");
+      break;
+  }
+  CHECK(B.err != E_TOODEEP || ((B.rec.kind == R_ARR || B.rec.kind == R_MAP) && g_callee_ret == E_TOODEEP), "C15: parseVariant returns TooDeep only when readArray / readObject did");
+  CHECK(B.err != E_NOMEM || (B.rec.calls == 1 && g_callee_ret == E_NOMEM && B.rec.kind != R_SKIP), "C06: under a filter NoMemory comes only from a store the filter admitted");
+}
+
+/* F8 at routine level: parseVariant<Filter> with the filter `true` behaves exactly as parseVariant<AllowAllFilter> */
+void h_mpf_variant_identity(void) {
+  mpvar_init();
+  unsigned char limit = in_u8();
+  struct outcome A = run_variant(1, 0, 0, limit);
+  struct outcome B = run_variant(0, 0, 0, limit);
+  COVER(A.rec.kind == R_INT); COVER(A.rec.kind == R_STR); COVER(A.rec.kind == R_RAW && A.rec.hsize == 3); COVER(A.rec.kind == R_ARR); COVER(A.rec.kind == R_MAP);
+  COVER(A.rec.kind == R_NONE && A.err == E_OK && A.rec.setint_calls == 1); COVER(A.err == E_INCOMPLETE); COVER(A.err == E_INVALID); COVER(A.rec.kind == R_F64);
+  CHECK(A.rec.kind != R_SKIP && B.rec.kind != R_SKIP, "nothing is skipped without a filter or with the filter true");
+#ifdef CANARY_MPF_IDENT
+  CHECK(B.err == A.err && B.pos == A.pos && B.found == A.found && SAME_V(B.v, A.v) && A.rec.kind != R_F32, "C11: filter true is the identity: same result, same bytes consumed, same value (malformed input included)");
+#else
+  CHECK(B.err == A.err && B.pos == A.pos && B.found == A.found && SAME_V(B.v, A.v), "C11: filter true is the identity: same result, same bytes consumed, same value (malformed input included)");
+#endif
+  CHECK(B.rec.kind == A.rec.kind && B.rec.calls == A.rec.calls && B.rec.n == A.rec.n && B.rec.pos == A.rec.pos && B.rec.nl == A.rec.nl && B.rec.width == A.rec.width &&
+        B.rec.isSigned == A.rec.isSigned && B.rec.setint_calls == A.rec.setint_calls && B.rec.setint_val == A.rec.setint_val && (A.rec.kind != R_RAW || SAME_HDR(A.rec, B.rec)),
+        "C11: filter true is the identity: the same payload routine with the same arguments");
+}
+#endif /* U_MPVAR */
+
+/* ================================================================================================================== */
+/* unit mpf_skip: skipBytes(n), n arbitrary (loop contract): the skip path consumes what the read path would consume    */
+/* ================================================================================================================== */
+#ifdef U_MPSKIP
+int StubReader__read(struct StubReader *self) {
+  (void)self;
+  CHECK(!g_eof, "C03: no byte is requested after the reader reported the end of the input");
+  g_reads++;
+  int c = (int)in_u16() - 1;
+  __CPROVER_assume(c >= -1 && c <= 255);
+  if (c < 0) g_eof = 1;
+  return c;
+}
+void h_mpf_skip(void) {
+  struct MsgPackDeserializer_StubReader d;
+  memset(&d, 0, sizeof d);
+  unsigned long n = in_u64();
+  g_n0 = n; g_reads = 0; g_eof = 0;
+  struct MsgPackDeserializer_StubReader before = d;
+  unsigned err = MsgPackDeserializer_StubReader__skipBytes(&d, n);
+  COVER(err == E_OK && n == 0); COVER(err == E_OK && n == 3); COVER(err == E_INCOMPLETE && g_reads == 1); COVER(err == E_INCOMPLETE && g_reads == n && n > 1); COVER(err == E_OK && n > 0xFFFFFFFFul);
+  CHECK(err == E_OK || err == E_INCOMPLETE, "C03: skipBytes returns Ok or IncompleteInput");
+#ifdef CANARY_MPF_SKIP
+  CHECK(err != E_OK || (g_reads == n + (n == 5) && !g_eof), "C11: Ok <=> exactly n bytes were consumed (what readBytes(p, n) of the read path consumes)");
+#else
+  CHECK(err != E_OK || (g_reads == n && !g_eof), "C11: Ok <=> exactly n bytes were consumed (what readBytes(p, n) of the read path consumes)");
+#endif
+  CHECK(err != E_INCOMPLETE || (g_eof && g_reads >= 1 && g_reads <= n), "C03: IncompleteInput <=> the input ended within the n bytes; nothing is requested beyond");
+  CHECK(memcmp(&before, &d, sizeof d) == 0, "C06: skipping stores nothing");
+}
+#endif /* U_MPSKIP */
+
+/* ================================================================================================================== */
+/* unit mpf_top: parse<Filter>: the entry point hands the document's root (never null), the user's filter and the      */
+/* user's nesting limit to parseVariant unchanged                                                                       */
+/* ================================================================================================================== */
+#ifdef U_MPTOP
+static struct VariantData g_root;
+static MD *g_self;
+static unsigned g_pv_calls, g_pv_ret;
+static unsigned char g_limit;
+static _Bool g_pv_found;
+unsigned int MsgPackDeserializer_StubReader__parseVariant_DeserializationOption__Filter(MD *self, struct VariantData *variant, Filter filter, NL nestingLimit) {
+  g_pv_calls++;
+  CHECK(self == g_self && variant == &g_root, "C03: the top-level value is parsed into the document's root: parseVariant's precondition allow() => variant != 0 holds for every filter");
+  CHECK(tok(&filter) == 1, "C11: the user's filter applies to the top-level value");
+  CHECK(nestingLimit.value_ == g_limit, "C15: the top-level value is at depth 0: it receives the user's limit L unchanged");
+  self->foundSomething_ = g_pv_found;     /* parseVariant sets it as soon as one byte was read */
+  return g_pv_ret;
+}
+void h_mpf_top(void) {
+  static MD d;
+  memset(&d, 0, sizeof d); memset(&g_root, 0, sizeof g_root);
+  g_self = &d; g_pv_calls = 0;
+  pick_answers();
+  g_pv_ret = in_u8();
+  __CPROVER_assume(g_pv_ret <= E_TOODEEP);
+  g_pv_found = in_bool();
+  __CPROVER_assume(g_pv_found || g_pv_ret == E_INCOMPLETE);   /* nothing read: the first readBytes failed */
+  g_limit = in_u8();
+  NL nl; nl.value_ = g_limit;
+  struct DeserializationError r = MsgPackDeserializer_StubReader__parse_DeserializationOption__Filter(&d, &g_root, mk_tok(1), nl);
+  COVER(!g_pv_found); COVER(g_pv_found && r.code_ == E_TOODEEP); COVER(r.code_ == E_OK && g_limit == 0);
+  CHECK(g_pv_calls == 1, "exactly one value is parsed per call");
+#ifdef CANARY_MPF_TOP
+  CHECK(r.code_ == (g_pv_found ? g_pv_ret : E_EMPTY) + (g_pv_ret == E_NOMEM), "the result is parseVariant's, or EmptyInput when the input held nothing");
+#else
+  CHECK(r.code_ == (g_pv_found ? g_pv_ret : E_EMPTY), "the result is parseVariant's, or EmptyInput when the input held nothing");
+#endif
+  CHECK(r.code_ != E_TOODEEP || g_pv_ret == E_TOODEEP, "C15: TooDeep only propagates");
+}
+#endif /* U_MPTOP */
+
+/* ================================================================================================================== */
+/* PART 3: JSON, "the filter true is the identity" at routine level: JsonDeserializer::parseVariant<Filter> with the    */
+/* filter `true` (all answers true: PART 1, F8) selects the same production with the same arguments as                  */
+/* parseVariant<AllowAllFilter>, for every first byte, well-formed or not; same for parse<>.                            */
+/* (The container routines are the same template text, parametric in the answers only: argued, see report.)             */
+/* ================================================================================================================== */
+#if defined(U_JSVAR) || defined(U_JSTOP)
+#ifndef SAME_V
+#define SAME_V(a, b) ((a).type_ == (b).type_ && (a).next_ == (b).next_ && (a).content_.asCollection.head_ == (b).content_.asCollection.head_ && \
+                      (a).content_.asCollection.tail_ == (b).content_.asCollection.tail_)
+#endif
+typedef struct JsonDeserializer_StubReader JD;
+enum { J_NONE, J_PARSE_ARRAY, J_SKIP_ARRAY, J_PARSE_OBJECT, J_SKIP_OBJECT, J_PARSE_STRING, J_SKIP_STRING, J_KEYWORD, J_PARSE_NUM, J_SKIP_NUM, J_PARSE_VARIANT };
+struct jrec { unsigned kind, calls, tok; unsigned char nl; _Bool own_target; char kw[6]; };
+static struct jrec g_jrec;
+static unsigned g_jret;
+static struct VariantData *g_jvariant;    /* the variant the routine under test received */
+static unsigned jcall(unsigned kind) { g_jrec.kind = kind; g_jrec.calls++; return g_jret; }
+#endif
+#ifdef U_JSVAR
+static char g_first;
+static _Bool g_spaces_ok;
+unsigned int JsonDeserializer_StubReader__skipSpacesAndComments(JD *self) {
+  self->latch_.loaded_ = 1;
+  if (g_spaces_ok) { self->latch_.current_ = g_first; self->foundSomething_ = 1; return E_OK; }
+  self->latch_.current_ = 0;
+  return self->foundSomething_ ? E_INCOMPLETE : E_EMPTY;
+}
+unsigned int JsonDeserializer_StubReader__parseArray_DeserializationOption__Filter(JD *self, struct ArrayData *a, Filter f, NL nl) {
+  (void)self; g_jrec.nl = nl.value_; g_jrec.tok = tok(&f); g_jrec.own_target = (void *)a == (void *)&g_jvariant->content_; return jcall(J_PARSE_ARRAY);
+}
+unsigned int JsonDeserializer_StubReader__parseArray_AllowAllFilter(JD *self, struct ArrayData *a, struct AllowAllFilter f, NL nl) {
+  (void)self; (void)f; g_jrec.nl = nl.value_; g_jrec.own_target = (void *)a == (void *)&g_jvariant->content_; return jcall(J_PARSE_ARRAY);
+}
+unsigned int JsonDeserializer_StubReader__parseObject_DeserializationOption__Filter(JD *self, struct ObjectData *o, Filter f, NL nl) {
+  (void)self; g_jrec.nl = nl.value_; g_jrec.tok = tok(&f); g_jrec.own_target = (void *)o == (void *)&g_jvariant->content_; return jcall(J_PARSE_OBJECT);
+}
+unsigned int JsonDeserializer_StubReader__parseObject_AllowAllFilter(JD *self, struct ObjectData *o, struct AllowAllFilter f, NL nl) {
+  (void)self; (void)f; g_jrec.nl = nl.value_; g_jrec.own_target = (void *)o == (void *)&g_jvariant->content_; return jcall(J_PARSE_OBJECT);
+}
+unsigned int JsonDeserializer_StubReader__skipArray(JD *self, NL nl) { (void)self; g_jrec.nl = nl.value_; return jcall(J_SKIP_ARRAY); }
+unsigned int JsonDeserializer_StubReader__skipObject(JD *self, NL nl) { (void)self; g_jrec.nl = nl.value_; return jcall(J_SKIP_OBJECT); }
+unsigned int JsonDeserializer_StubReader__parseStringValue(JD *self, struct VariantData *v) { (void)self; g_jrec.own_target = v == g_jvariant; return jcall(J_PARSE_STRING); }
+unsigned int JsonDeserializer_StubReader__skipQuotedString(JD *self) { (void)self; return jcall(J_SKIP_STRING); }
+unsigned int JsonDeserializer_StubReader__skipKeyword(JD *self, char *s) {
+  (void)self;
+  g_jrec.kw[0] = s[0]; g_jrec.kw[1] = s[0] ? s[1] : 0; g_jrec.kw[2] = s[0] && s[1] ? s[2] : 0; g_jrec.kw[3] = s[0] && s[1] && s[2] ? s[3] : 0;
+  g_jrec.kw[4] = s[0] && s[1] && s[2] && s[3] ? s[4] : 0; g_jrec.kw[5] = 0;
+  return jcall(J_KEYWORD);
+}
+unsigned int JsonDeserializer_StubReader__parseNumericValue(JD *self, struct VariantData *v) { (void)self; g_jrec.own_target = v == g_jvariant; return jcall(J_PARSE_NUM); }
+unsigned int JsonDeserializer_StubReader__skipNumericValue(JD *self) { (void)self; return jcall(J_SKIP_NUM); }
+
+struct joutcome { unsigned err; struct jrec rec; struct VariantData v; _Bool found, loaded; char current; };
+static struct joutcome run_jvariant(int allowAll, _Bool found0, unsigned char limit) {
+  static JD d;
+  struct joutcome o;
+  memset(&d, 0, sizeof d); memset(&o, 0, sizeof o); memset(&g_jrec, 0, sizeof g_jrec);
+  d.foundSomething_ = found0;
+  g_jvariant = &o.v;
+  NL nl; nl.value_ = limit;
+  if (allowAll) {
+    struct AllowAllFilter all; memset(&all, 0, sizeof all);
+    o.err = JsonDeserializer_StubReader__parseVariant_AllowAllFilter(&d, &o.v, all, nl);
+  } else {
+    o.err = JsonDeserializer_StubReader__parseVariant_DeserializationOption__Filter(&d, &o.v, mk_tok(0), nl);
+  }
+  o.rec = g_jrec; o.found = d.foundSomething_; o.loaded = d.latch_.loaded_; o.current = d.latch_.current_;
+  return o;
+}
+void h_jsonf_variant_identity(void) {
+  pick_answers();
+  g_tok[0].allow = g_tok[0].arr = g_tok[0].obj = g_tok[0].val = 1;      /* token 0: the filter `true` (PART 1, F8) */
+  g_first = in_char(); g_spaces_ok = in_bool();
+  __CPROVER_assume(g_first != 0);
+  g_jret = in_u8();
+  __CPROVER_assume(g_jret <= E_TOODEEP);
+  _Bool found0 = in_bool();
+  unsigned char limit = in_u8();
+  struct joutcome A = run_jvariant(1, found0, limit);
+  struct joutcome B = run_jvariant(0, found0, limit);
+  COVER(A.rec.kind == J_PARSE_ARRAY); COVER(A.rec.kind == J_PARSE_OBJECT); COVER(A.rec.kind == J_PARSE_STRING); COVER(A.rec.kind == J_KEYWORD && A.v.type_ == 0x06 && A.v.content_.asBoolean);
+  COVER(A.rec.kind == J_KEYWORD && A.v.type_ == 0); COVER(A.rec.kind == J_PARSE_NUM && g_first == '}'); COVER(!g_spaces_ok && A.err == E_EMPTY); COVER(A.err == E_TOODEEP);
+  CHECK(A.rec.calls <= 1 && B.rec.calls <= 1, "one production per value");
+  CHECK(B.rec.kind != J_SKIP_ARRAY && B.rec.kind != J_SKIP_OBJECT && B.rec.kind != J_SKIP_STRING && B.rec.kind != J_SKIP_NUM, "C11: the filter true skips nothing");
+#ifdef CANARY_JSONF_VARIANT
+  CHECK(B.err == A.err && B.rec.kind == A.rec.kind && B.rec.calls == A.rec.calls && g_first != '{', "C11: filter true is the identity: the same production runs, on malformed input too");
+#else
+  CHECK(B.err == A.err && B.rec.kind == A.rec.kind && B.rec.calls == A.rec.calls, "C11: filter true is the identity: the same production runs, on malformed input too");
+#endif
+  CHECK(B.rec.nl == A.rec.nl && B.rec.own_target == A.rec.own_target && B.rec.kw[0] == A.rec.kw[0] && B.rec.kw[1] == A.rec.kw[1] && B.rec.kw[2] == A.rec.kw[2] &&
+        B.rec.kw[3] == A.rec.kw[3] && B.rec.kw[4] == A.rec.kw[4], "C11: ... with the same arguments (target, nesting limit, keyword)");
+  CHECK((B.rec.kind != J_PARSE_ARRAY && B.rec.kind != J_PARSE_OBJECT) || B.rec.tok == 0, "C11: ... and the container routine receives the filter true again");
+  CHECK(SAME_V(B.v, A.v) && B.found == A.found && B.loaded == A.loaded && B.current == A.current, "C11: ... leaving the same variant and the same reader state");
+}
+#endif /* U_JSVAR */
+#ifdef U_JSTOP
+static unsigned char g_set_type; static char g_set_current;
+static unsigned j_child(JD *self, struct VariantData *variant, unsigned char limit) {
+  g_jrec.nl = limit; g_jrec.own_target = variant == g_jvariant;
+  variant->type_ = g_set_type; self->latch_.current_ = g_set_current; self->latch_.loaded_ = 1;
+  return jcall(J_PARSE_VARIANT);
+}
+unsigned int JsonDeserializer_StubReader__parseVariant_DeserializationOption__Filter(JD *self, struct VariantData *variant, Filter f, NL nl) { g_jrec.tok = tok(&f); return j_child(self, variant, nl.value_); }
+unsigned int JsonDeserializer_StubReader__parseVariant_AllowAllFilter(JD *self, struct VariantData *variant, struct AllowAllFilter f, NL nl) { (void)f; return j_child(self, variant, nl.value_); }
+void h_jsonf_top_identity(void) {
+  static JD d;
+  struct VariantData va, vb;
+  pick_answers();
+  g_jret = in_u8();
+  __CPROVER_assume(g_jret <= E_TOODEEP);
+  g_set_type = in_u8(); g_set_current = in_char();
+  unsigned char limit = in_u8();
+  NL nl; nl.value_ = limit;
+  struct AllowAllFilter all; memset(&all, 0, sizeof all);
+  memset(&d, 0, sizeof d); memset(&va, 0, sizeof va); memset(&g_jrec, 0, sizeof g_jrec); g_jvariant = &va;
+  struct DeserializationError ra = JsonDeserializer_StubReader__parse_AllowAllFilter(&d, &va, all, nl);
+  struct jrec reca = g_jrec;
+  memset(&d, 0, sizeof d); memset(&vb, 0, sizeof vb); memset(&g_jrec, 0, sizeof g_jrec); g_jvariant = &vb;
+  struct DeserializationError rb = JsonDeserializer_StubReader__parse_DeserializationOption__Filter(&d, &vb, mk_tok(0), nl);
+  COVER(ra.code_ == E_OK); COVER(ra.code_ == E_INVALID && g_jret == E_OK); COVER(ra.code_ == E_TOODEEP);
+#ifdef CANARY_JSONF_TOP
+  CHECK(rb.code_ == ra.code_ && ra.code_ != E_NOMEM, "C11: filter true is the identity: parse gives the same result");
+#else
+  CHECK(rb.code_ == ra.code_, "C11: filter true is the identity: parse gives the same result");
+#endif
+  CHECK(g_jrec.calls == 1 && reca.calls == 1 && g_jrec.nl == limit && reca.nl == limit && g_jrec.own_target && reca.own_target && g_jrec.tok == 0,
+        "C11/C15: one parseVariant call on the document root with the user's filter and nesting limit, in both instantiations");
+}
+#endif /* U_JSTOP */
